@@ -10,6 +10,7 @@ import KinModel.Lemmas.C09LegacyComplete
 import KinModel.Lemmas.C09LegacyLiteral
 import KinModel.Lemmas.C09Server
 import KinModel.Lemmas.C09Facts
+import KinModel.Lemmas.C09Refine
 import KinModel.Lemmas.C09Gorilla
 import KinModel.Lemmas.C09Spec
 import KinModel.Lemmas.C09Witness
@@ -591,23 +592,8 @@ theorem spec_server_rem_sound (e : Bool) (s : Server) (r : Req) (rem : Str) (h :
     ∃ vals, Fills (sparseS (dropOneSlash s.url)) vals
         (if isRelativeURL (dropOneSlash s.url) then r.path else fullURL r) rem ∧
       (rem = [] ∨ rem.head? = some '/') ∧
-      (e = true → enumOK s (svarNames (sparseS (dropOneSlash s.url))) vals = true) := by
-  simp only [specServerRems, List.mem_filterMap] at h
-  obtain ⟨⟨vals, rest⟩, hm, hc⟩ := h
-  split at hc
-  · rename_i hcond
-    simp only [Option.some.injEq] at hc
-    subst hc
-    simp only [Bool.and_eq_true, Bool.or_eq_true, decide_eq_true_eq, Bool.not_eq_true'] at hcond
-    refine ⟨vals, (smatchP_iff _ _ _ _).1 hm, ?_, ?_⟩
-    · rcases hcond.1 with h1 | h1
-      · exact Or.inl h1
-      · exact Or.inr (by simpa using h1)
-    · intro he
-      rcases hcond.2 with h2 | h2
-      · rw [he] at h2; simp at h2
-      · exact h2
-  · simp at hc
+      (e = true → enumOK s (svarNames (sparseS (dropOneSlash s.url))) vals = true) :=
+  specServerRems_sound e s r rem h
 
 /-- every candidate of the spec is a declared template, matched against what remains of the request after one of the
     servers that apply to the template's path item — and the candidate names that server (`Route.Server` must be it) -/
@@ -717,6 +703,97 @@ theorem spec_accepts_route (d : Doc) (r : Req) (t m : Str) (ps : List (Str × St
       obtain ⟨hm, c, hc, ⟨hct, hcp⟩, hcs⟩ := h
       have hh := (spec_route_allowed true d r cs hso).1 c hc
       exact ⟨hm, c, hh.1, hh.2, hct, hcs, hcp⟩
+
+/-! ## the gorillamux model against the spec, on documents whose servers are plain relative paths (`PlainDoc`: no server
+    variables, no scheme/host; document-level and path-item level servers, several base paths) without the leak shape -/
+
+/-- route_sound against the spec: a returned route is a candidate of the spec — same template, same binding, and the
+    `Route.Server` it names is the server under which the spec found the candidate — that declares the method -/
+theorem gorilla_refines_spec_sound (e : Bool) (d : Doc) (hd : PlainDoc d) (hsh : leakShape (inMatchingOrder d.paths) = false)
+    (req : Req) (t m : Str) (ps : List (Str × Str)) (sv : SrvRef) (h : gorillaFind d req = .route t m ps sv) :
+    m = req.method ∧ ∃ c ∈ specCands e d req, c.template = t ∧ c.server = sv ∧ c.declares = true ∧
+      ps = mapSetAll (mapSetAll [] c.params) [] := by
+  unfold gorillaFind gorillaFindL at h
+  split at h
+  · simp at h
+  · rename_i rs hrs
+    obtain ⟨pre, r, post, b, e0, _, hm, ht, hmeth, hdecl, hsv, hps⟩ := gFirst_route h
+    have hr : r ∈ rs := by rw [e0]; simp
+    obtain ⟨pd, hpd, g, hg, hmk⟩ := ((routes_effective hrs hsh).1 r).1 hr
+    obtain ⟨e1, e2, e3, _, _⟩ := mkRoute_some hmk
+    have hc := cand_of_match e d hd req pd hpd g hg b (gRouteMatch_reproduces hmk hm)
+    refine ⟨hmeth, _, List.mem_flatMap.2 ⟨pd, hpd, hc⟩, by rw [← e1, ht], by rw [← e3]; exact hsv, ?_, ?_⟩
+    · simp only [List.contains_iff_mem, decide_eq_true_eq]
+      rw [← e2]; exact hdecl
+    · have hupd : g.upd = none := by
+        unfold EffSrv at hg
+        have hcf : ∀ mk l, (∀ s ∈ l, PlainRel s) → CompiledFrom mk l g → g.upd = none := by
+          intro mk l hl hcf
+          rcases hcf with ⟨_, rfl⟩ | ⟨i, s, hi, hmks⟩
+          · rfl
+          · rw [gMakeServer_plainRel _ s (hl s (getElem?_mem' hi))] at hmks
+            simp only [Option.some.injEq] at hmks
+            subst hmks; rfl
+        split at hg
+        · exact hcf _ _ hd.1 hg
+        · exact hcf _ _ (hd.2 pd hpd).1 hg
+      rw [hps, e3, hupd]
+
+/-- no_match_is_error against the spec: the router answers path-not-found exactly when the spec has no candidate -/
+theorem gorilla_refines_spec_not_found (e : Bool) (d : Doc) (hd : PlainDoc d) (hsh : leakShape (inMatchingOrder d.paths) = false)
+    (rs : List GRoute) (hrs : gorillaRoutes d = some rs) (req : Req) :
+    gorillaFind d req = .notFound ↔ specCands e d req = [] := by
+  rw [gorilla_not_found_iff d req rs hrs]
+  unfold gorillaRoutes at hrs
+  obtain ⟨heff, hbuilt⟩ := routes_effective hrs hsh
+  constructor
+  · intro hall
+    apply List.eq_nil_iff_forall_not_mem.2
+    intro c hc
+    simp only [specCands, List.mem_flatMap] at hc
+    obtain ⟨pd, hpd, hcp⟩ := hc
+    obtain ⟨_, _, g, hg, _, hmatch⟩ := match_of_cand e d hd req pd hpd c hcp
+    obtain ⟨r, hmk⟩ := hbuilt pd hpd g hg
+    exact hmatch r hmk (hall r ((heff r).2 ⟨pd, hpd, g, hg, hmk⟩))
+  · intro hnil r hr
+    cases hm : gRouteMatch r req with
+    | none => rfl
+    | some b =>
+      exfalso
+      obtain ⟨pd, hpd, g, hg, hmk⟩ := (heff r).1 hr
+      have hc := cand_of_match e d hd req pd hpd g hg b (gRouteMatch_reproduces hmk hm)
+      have : (⟨pd.template, b, pd.methods.contains req.method, g.ref⟩ : Cand) ∈ specCands e d req :=
+        List.mem_flatMap.2 ⟨pd, hpd, hc⟩
+      rw [hnil] at this
+      simp at this
+
+/- Full statement (false for the code, finding #40): some candidate declares the method → routed.
+   What holds: … when every candidate of the spec declares the method (no matching template lacks it). -/
+theorem gorilla_refines_spec_complete_partial (e : Bool) (d : Doc) (hd : PlainDoc d)
+    (hsh : leakShape (inMatchingOrder d.paths) = false) (rs : List GRoute) (hrs : gorillaRoutes d = some rs) (req : Req)
+    (hex : specCands e d req ≠ []) (hall : ∀ c ∈ specCands e d req, c.declares = true) :
+    ∃ t ps sv, gorillaFind d req = .route t req.method ps sv := by
+  unfold gorillaFind gorillaFindL
+  unfold gorillaRoutes at hrs
+  rw [hrs]
+  obtain ⟨heff, hbuilt⟩ := routes_effective hrs hsh
+  apply gFirst_complete
+  · obtain ⟨c, hc⟩ := List.exists_mem_of_ne_nil _ hex
+    simp only [specCands, List.mem_flatMap] at hc
+    obtain ⟨pd, hpd, hcp⟩ := hc
+    obtain ⟨_, _, g, hg, _, hmatch⟩ := match_of_cand e d hd req pd hpd c hcp
+    obtain ⟨r, hmk⟩ := hbuilt pd hpd g hg
+    exact ⟨r, (heff r).2 ⟨pd, hpd, g, hg, hmk⟩, hmatch r hmk⟩
+  · intro r hr hm
+    cases hmm : gRouteMatch r req with
+    | none => exact absurd hmm hm
+    | some b =>
+      obtain ⟨pd, hpd, g, hg, hmk⟩ := (heff r).1 hr
+      have hc := cand_of_match e d hd req pd hpd g hg b (gRouteMatch_reproduces hmk hmm)
+      have hdecl := hall _ (List.mem_flatMap.2 ⟨pd, hpd, hc⟩)
+      simp only [List.contains_iff_mem, decide_eq_true_eq] at hdecl
+      rw [(mkRoute_some hmk).2.1]
+      exact hdecl
 
 /-! ## witnesses: inside each exclusion class the modelled code really differs from the spec -/
 
@@ -907,5 +984,16 @@ example : (⟨get, s "/a/b"⟩ : Key) ∈ docKeys dFam ∧ '{' ∉ (⟨get, s "/
 open W in
 /-- the hypotheses of `legacy_server_sound` hold: second of two servers matched, first one rejected -/
 example : legacyServer dTwo (reqRel "GET" "/v2/x/a") = some (some 1, [], s "/a") := by decide +kernel
+
+open W in
+/-- the hypotheses of the `gorilla_refines_spec_*` theorems hold for the document with two servers of different base
+    paths and for the one whose only path item has its own server: plain relative servers, no leak shape, route list
+    built; a candidate exists and every candidate declares the method -/
+example : PlainDoc dTwo ∧ PlainDoc dPathSrv ∧ leakShape (inMatchingOrder dTwo.paths) = false ∧
+    (gorillaRoutes dTwo).isSome = true ∧
+    specCands true dTwo (reqRel "GET" "/v2/x/b/7") = [⟨s "/b/{x}", [(s "x", s "7")], true, .doc 1⟩] := by
+  refine ⟨?_, ?_, by decide +kernel, by decide +kernel, by decide +kernel⟩
+  · unfold PlainDoc PlainRel; decide +kernel
+  · unfold PlainDoc PlainRel; decide +kernel
 
 end KinModel.Props.C09
